@@ -146,32 +146,49 @@ theorem afterSelect_mem (r : Reg) (s : Nat) (l : Lid) (b : Bool) (e : Nat × Lid
     · exact Or.inr ⟨rfl, he⟩
     · exact Or.inl he
 
-theorem deliver_mem (r1 : Reg) (s : Nat) (l : Lid) (v : Via) (e : Nat × Lid)
-    (h : e ∈ (deliver r1 s l v).1.bySsrc) : e ∈ r1.bySsrc := by
+theorem deliver_mem (r1 : Reg) (s : Nat) (l : Lid) (v : Via) (f : Bool) (e : Nat × Lid)
+    (h : e ∈ (deliver r1 s l v f).1.bySsrc) : e ∈ r1.bySsrc := by
   unfold deliver at h
   split at h
   · simp only [removeSender] at h
     exact mem_remove _ _ _ (mem_dropLid _ _ _ h).1
-  · exact h
+  · split at h <;> exact h
 
-theorem deliver_delivered (r1 : Reg) (s : Nat) (l l' : Lid) (v v' : Via)
-    (h : (deliver r1 s l v).2 = .delivered l' v') : r1.isClosed l = false ∧ l' = l ∧ v' = v := by
+theorem deliver_delivered (r1 : Reg) (s : Nat) (l l' : Lid) (v v' : Via) (f : Bool)
+    (h : (deliver r1 s l v f).2 = .delivered l' v') : r1.isClosed l = false ∧ f = false ∧ l' = l ∧ v' = v := by
   unfold deliver at h
   split at h
   · simp at h
   · rename_i hc
-    simp at h
-    exact ⟨by simpa using hc, h.1.symm, h.2.symm⟩
+    split at h
+    · simp at h
+    · rename_i hf
+      simp at h
+      exact ⟨by simpa using hc, by simpa using hf, h.1.symm, h.2.symm⟩
 
-theorem deliver_closedOut (r1 : Reg) (s : Nat) (l l' : Lid) (v v' : Via)
-    (h : (deliver r1 s l v).2 = .closedOut l' v') :
-    l' = l ∧ (deliver r1 s l v).1 = removeSender { r1 with bySsrc := remove s r1.bySsrc } l := by
+/-- a full channel costs the packet and nothing else -/
+theorem deliver_fullOut (r1 : Reg) (s : Nat) (l l' : Lid) (v v' : Via) (f : Bool)
+    (h : (deliver r1 s l v f).2 = .fullOut l' v') :
+    r1.isClosed l = false ∧ f = true ∧ l' = l ∧ v' = v ∧ (deliver r1 s l v f).1 = r1 := by
+  unfold deliver at h ⊢
+  split at h
+  · simp at h
+  · rename_i hc
+    split at h
+    · rename_i hf
+      simp at h
+      simp [hc, hf, h.1.symm, h.2.symm]
+    · simp at h
+
+theorem deliver_closedOut (r1 : Reg) (s : Nat) (l l' : Lid) (v v' : Via) (f : Bool)
+    (h : (deliver r1 s l v f).2 = .closedOut l' v') :
+    l' = l ∧ (deliver r1 s l v f).1 = removeSender { r1 with bySsrc := remove s r1.bySsrc } l := by
   unfold deliver at h ⊢
   split at h
   · rename_i hc
     simp at h
     simp [hc, h.1.symm]
-  · simp at h
+  · split at h <;> simp at h
 
 /-- a listener is known to the registry in some role -/
 def Registered (r : Reg) (l : Lid) : Prop :=
